@@ -145,6 +145,54 @@ func genC02(g *genCtx) {
 			"not(" + m + ") or " + p, m + " and count(" + p + ") > 0", "starts-with(concat(" + m + ", " + p + "), '1')"})
 		g.add(&Case{Kind: "sel", Doc: d, Ctx: pickNodeCtx(r, d), Expr: r.pick([]string{"//*", "*", "//a", "descendant::*"}) + "[" + pr + "]"})
 	}
+	// comparison predicates between every pair of operand kinds (node-set, string, number, boolean), all six
+	// operators: the relational ones compare numbers whatever the operands are ('10' < '9' is false, b < c looks
+	// at the numbers in b and c, 2 > true() is true), each operand on the side where it was written
+	numPool := docPool(r, numericProfile, 4, 2, g.scale(60, 200), 18)
+	for i := 0; i < g.scale(6000, 60000); i++ {
+		d := numPool[r.intn(len(numPool))]
+		set := func() string { return r.pick([]string{genFlatPath(r), genFlatPath(r), genMovingPath(r), "@k", "@m", "b", "c", ".", "*", "text()"}) }
+		str := func() string {
+			return r.pick([]string{r.pick(strLits), r.pick(strLits), "string(" + set() + ")", "concat('1', '0')", "'9'", "'10'", "'2.5'", "'07'", "' 7'", "string(@k)", "normalize-space(" + set() + ")", "local-name()"})
+		}
+		num := func() string {
+			return r.pick([]string{r.pick(numLits), r.pick(numLits), "count(" + set() + ")", "number(" + set() + ")", "string-length(" + set() + ")", "1 div 0", "0 div 0", "9", "-0.5"})
+		}
+		boo := func() string {
+			return r.pick([]string{"true()", "false()", "not(" + set() + ")", "boolean(" + set() + ")", "count(*) > 0"})
+		}
+		any := func() string {
+			switch r.intn(8) {
+			case 0, 1, 2:
+				return set()
+			case 3, 4:
+				return str()
+			case 5, 6:
+				return num()
+			default:
+				return boo()
+			}
+		}
+		var pr string
+		switch r.intn(6) {
+		case 0:
+			pr = set() + " " + r.pick(cmpOps) + " " + set()
+		case 1:
+			pr = set() + " " + r.pick(cmpOps) + " " + str()
+		case 2:
+			pr = str() + " " + r.pick(cmpOps) + " " + r.pick([]string{set(), str(), num()})
+		case 3:
+			pr = num() + " " + r.pick(cmpOps) + " " + str()
+		case 4:
+			pr = boo() + " " + r.pick(cmpOps) + " " + r.pick([]string{num(), str(), set(), boo()})
+		default:
+			pr = any() + " " + r.pick(cmpOps) + " " + any()
+		}
+		if r.chance(1, 6) {
+			pr = r.pick([]string{"not(" + pr + ")", "(" + pr + ") and " + set(), pr + " or " + set() + " " + r.pick(cmpOps) + " " + num()})
+		}
+		g.add(&Case{Kind: "sel", Doc: d, Ctx: pickNodeCtx(r, d), Expr: r.pick([]string{"//*", "*", "//a", "descendant::*", "//a/*", "//@k/.."}) + "[" + pr + "]"})
+	}
 	// state-leak stress: every ordered pair of axes as an existence predicate, both joints, on documents
 	// made of few names and repeated similar subtrees, so that a candidate which abandons a traversal
 	// half-way is followed by candidates that have to start theirs afresh
